@@ -221,6 +221,41 @@ def main():
                             input={"order": list(order), "ranges": [[100.0, 200.0], [-5.0, 5.0]]}, observed=[rmin, rmax])
             elif abs(float(bld.imgset.data_min) - lo_all) > tol or abs(float(bld.imgset.data_max) - hi_all) > tol:
                 h.violation("workflow:wtml-range", f"tile_fits over two images: the data set description says ({bld.imgset.data_min}, {bld.imgset.data_max}), the leaves span ({lo_all}, {hi_all})", input={"order": list(order)})
+        # ---- the single-image TAN route at every depth from 0 (an image that fits one tile: nothing to cascade, but the root tile IS
+        # the full-resolution data and the data set description still has to carry its range)
+        for (w_px, h_px) in ((120, 90), (256, 256), (300, 200), (700, 300)):
+            baset = os.path.join(root, f"tan{w_px}x{h_px}")
+            os.makedirs(baset)
+            w_ = WCS(naxis=2)
+            w_.wcs.ctype = ["RA---TAN", "DEC--TAN"]
+            w_.wcs.crval = [120.0, -30.0]
+            w_.wcs.crpix = [w_px / 2, h_px / 2]
+            w_.wcs.cdelt = [-0.001, 0.001]
+            rr = np.random.RandomState(w_px)
+            dat_ = (rr.randint(17, 4000, size=(h_px, w_px)) / 8.0).astype(np.float32)
+            dat_[rr.rand(h_px, w_px) < 0.1] = np.nan
+            lo_d, hi_d = float(np.nanmin(dat_)), float(np.nanmax(dat_))
+            pth_ = os.path.join(baset, "im.fits")
+            afits.PrimaryHDU(dat_, header=w_.to_header()).writeto(pth_, overwrite=True)
+            with _w.catch_warnings():
+                _w.simplefilter("ignore")
+                odir, bld = toasty.tile_fits(pth_, out_dir=os.path.join(baset, "out"), tiling_method=toasty.TilingMethod.TAN, parallel=1)
+            from wwt_data_formats.folder import Folder
+            f_ = Folder.from_file(os.path.join(odir, "index_rel.wtml"))
+            iset = f_.children[0].get_default_imageset() if hasattr(f_.children[0], "get_default_imageset") else f_.children[0].foreground_image_set
+            with afits.open(PyramidIO(odir, default_format="fits").tile_path(Pos(0, 0, 0), makedirs=False)) as hd_:
+                rmin, rmax = float(hd_[0].header["DATAMIN"]), float(hd_[0].header["DATAMAX"])
+            depth_ = int(iset.tile_levels)
+            h.case(("tile_fits-tan", w_px, h_px))
+            h.count("workflow", f"tile_fits-tan-depth{depth_}")
+            tol = 1e-4 * max(1.0, abs(hi_d - lo_d))
+            desc_ = f"tile_fits({w_px}x{h_px} image, TAN) [depth {depth_}]"
+            if abs(rmin - lo_d) > tol or abs(rmax - hi_d) > tol:
+                h.violation("workflow:tan-root-range", f"{desc_}: the root tile records DATAMIN/DATAMAX = ({rmin}, {rmax}); the image spans ({lo_d}, {hi_d})", input={"size": [w_px, h_px]}, observed=[rmin, rmax])
+            elif abs(float(iset.data_min) - lo_d) > tol or abs(float(iset.data_max) - hi_d) > tol:
+                h.violation("workflow:tan-wtml-range", f"{desc_}: index_rel.wtml records the data range ({iset.data_min}, {iset.data_max}); the image spans ({lo_d}, {hi_d})", input={"size": [w_px, h_px]}, observed=[float(iset.data_min), float(iset.data_max)])
+            elif abs(float(bld.imgset.data_min) - lo_d) > tol or abs(float(bld.imgset.data_max) - hi_d) > tol:
+                h.violation("workflow:tan-wtml-range", f"{desc_}: the returned description says ({bld.imgset.data_min}, {bld.imgset.data_max}); the image spans ({lo_d}, {hi_d})", input={"size": [w_px, h_px]})
     except Exception as e:
         import traceback
         h.violation("workflow:crash", f"multi-image tile_fits raised {type(e).__name__}: {e}", input="tile_fits", observed=traceback.format_exc()[-500:])
